@@ -2368,7 +2368,10 @@ class Attribute(object):
                 obj._vals_[attr] = new_val
 
                 if not reverse: pass
-                elif not is_reverse_call: attr.update_reverse(obj, old_val, new_val, undo_funcs)
+                elif not is_reverse_call:
+                    attr.update_reverse(obj, old_val, new_val, undo_funcs)
+                    # cascade delete of the previous one-to-one partner resets this attribute to None
+                    obj._vals_[attr] = new_val
                 elif old_val not in (None, NOT_LOADED):
                     if not reverse.is_collection:
                         if new_val is not None:
